@@ -665,7 +665,29 @@ def _dominating_tests(fn: ast.AST, target: ast.AST) -> List[str]:
 
 
 def _is_last_statement(fn: ast.FunctionDef, node: ast.AST) -> bool:
-    return fn.body and fn.body[-1] is node
+    """the raise closes a kind dispatch: it is the last statement of its block (the function body, or the branch
+    that holds the dispatch), and everything before it in that block is an `if ...: return/raise` arm (or a plain
+    assignment / assert / docstring)"""
+    def blocks(n):
+        for name in ('body', 'orelse', 'finalbody'):
+            b = getattr(n, name, None)
+            if isinstance(b, list) and b and isinstance(b[0], ast.stmt):
+                yield b
+                for st in b:
+                    yield from blocks(st)
+        for h in getattr(n, 'handlers', []) or []:
+            yield from blocks(h)
+    for b in blocks(fn):
+        if b[-1] is node:
+            for st in b[:-1]:
+                if isinstance(st, ast.If):
+                    last = st.body[-1]
+                    if not isinstance(last, (ast.Return, ast.Raise)):
+                        return False
+                elif not isinstance(st, (ast.Assign, ast.AnnAssign, ast.Assert, ast.Expr)):
+                    return False
+            return True
+    return False
 
 
 # ======================================================================= X4
